@@ -459,6 +459,8 @@ func scenarios(c *vk.Ctx) (out []scenario) {
 			out = append(out, scenario{pre, t})
 		}
 	}
+	// a closer, a lookup parked behind it, and a remover whose context ends while it waits as well (quick: preloaded only)
+	out = append(out, scenario{true, []opKind{opRemove, opRemoveC, opCancel, opGet}})
 	if c.Thorough() {
 		for _, pre := range []bool{false, true} {
 			out = append(out, scenario{pre, []opKind{opGet, opGet, opRemove, opClose}}, scenario{pre, []opKind{opGet, opTryRemove, opGC, opClose}},
